@@ -99,6 +99,14 @@ def variants(rng, case, njobs_values):
         other['t'] = [9, 10] if case['t'] != [9, 10] else [1, 2]
     c2['_before'] = other
     out.append(('after-call-with-other-threshold', c2))
+    if case['kind'] == 'join' and case['meas'] != 'EDIT_DISTANCE' and case['tok'].get('rs', 1) == 0:
+        c3 = copy.deepcopy(case)
+        c3['n_jobs'] = rng.choice([1, 2, 3])
+        c3['_probe'] = {'L': {'cols': ['id', 's'], 'rows': [[1, 'x x y'], [2, 'x y'], [3, 'x x x x']], 'index': None,
+                              'strcols': ['s']},
+                        'R': {'cols': ['id', 's'], 'rows': [[11, 'x y y'], [12, 'x'], [13, 'y y y y x']], 'index': None,
+                              'strcols': ['s']}}
+        out.append(('probe-before-after', c3))
     return out
 
 
@@ -114,6 +122,24 @@ def run_group(item):
     if not base.get('_wide'):
         out['api'].append(record.abstract(base, obs, res, tabs, 0))
     for label, c in vars_:
+        if label == 'probe-before-after':
+            # one bag-mode tokenizer object shared by three calls: a bag-sensitive probe (SizeFilter.filter_tables on
+            # strings with repeated tokens), the call under test, the same probe again - repeating the probe in the
+            # same process must give the same rows
+            tok = record.make_tokenizer(c['tok'])
+            probe = dict(c, kind='ftab', api='SIZE.filter_tables', filt='SIZE', meas='JACCARD', t=[1, 2], op='>=',
+                         sc=0, n_jobs=1, L=c['_probe']['L'], R=c['_probe']['R'], lout=None, rout=None)
+            probe.pop('_probe')
+            pa = record.execute(probe, tokenizer=tok)
+            cc = {k: v for k, v in c.items() if k != '_probe'}
+            record.execute(cc, tokenizer=tok)
+            pb = record.execute(probe, tokenizer=tok)
+            tok.set_return_set(bool(c['tok'].get('rs', 1)))
+            ra, rb = record.law_rows(probe, pa[1], pa[3]), record.law_rows(probe, pb[1], pb[3])
+            if ra is not None and rb is not None:
+                out['laws'].append({'law': 'EQ', 'prop': 'C10', 'A': ra, 'B': rb, 't': base['t'], 'label': label,
+                                    'meas': base['meas'], 'op': base['op']})
+            continue
         if '_before' in c:
             record.execute(c.pop('_before'))
         o2, r2, ev2, t2 = record.execute(c)
@@ -240,8 +266,11 @@ def run(tier, seed):
     for tid, v in lverd.items():
         g, label = by_tid[('law', tid)]
         for f in v['fails']:
+            case = dict(g[1], _variant=label)
+            if label == 'probe-before-after':
+                case['_vcase'] = [vc for lb, vc in g[2] if lb == label][0]
             fails.append({'prop': f[0], 'clause': f[1] + ':' + label.split('=')[0], 'detail': f[2:] + [label],
-                          'case': dict(g[1], _variant=label), 'engine': 'E4'})
+                          'case': case, 'engine': 'E4'})
     for tid, v in averd.items():
         g, _ = by_tid[('api', tid)]
         for f in v['fails']:
@@ -272,7 +301,15 @@ def _rows_only(case):
 
 def replay(case):
     label = case.get('_variant', '')
-    base = {k: v for k, v in case.items() if k != '_variant'}
+    base = {k: v for k, v in case.items() if k not in ('_variant', '_vcase')}
+    if label == 'probe-before-after':
+        out = run_group((1, base, [(label, copy.deepcopy(case['_vcase']))]))
+        laws = [l for l in out['laws'] if l['label'] == label]
+        for j, l in enumerate(laws):
+            l['tid'] = j + 1
+        v, _ = runner.validate(laws, 'TraceLaws', 'replay-e4p')
+        return [{'prop': f[0], 'clause': f[1] + ':' + label, 'detail': f[2:]} for x in v.values() for f in x['fails']], \
+            {'laws': len(laws)}
     rec = None
     fails = []
     obs, res, ev, tabs = record.execute(base)
